@@ -365,6 +365,76 @@ def run(chk, prog):
             'pop_choice_string_and_tags downcasts a popped value to Tag without the is::<Tag>() test before it',
             pct.loc(dc[0]) if dc else pct.loc(0))
 
+    # ---------------------------------------------------------------- I
+    RI = 'C04.divisor-not-zero'
+    chk.rule(RI, 'Every division / remainder of the runtime whose zero check is a panicking Assert (all integer types; the '
+             'i32 operators of the story use checked_div / checked_rem and are covered by int-arith) has a divisor that is '
+             'known not to be zero where it is used: the Assert is dominated by a comparison of the same value with a '
+             'constant whose side taken for 0 cannot reach it, or by an emptiness test of the collection whose length it is.')
+    from analysis.defuse import du as _du4
+    ndiv = 0
+    for fn in sorted(prog.fns.values(), key=lambda f: f.p):
+        if fn.crate != 'bladeink' or '::tests::' in fn.p:
+            continue
+        gq = cfg(fn)
+        dq = _du4(fn)
+        for bb, t in fn.terms():
+            if t['k'] != 'assert' or t.get('ak') not in ('rem_zero', 'div_zero'):
+                continue
+            ndiv += 1
+            c0 = t['cond']
+            dv = None
+            if c0.get('k') in ('copy', 'move'):
+                for df in dq.defs.get(c0['pl']['l'], []):
+                    if df['kind'] == 'assign' and df['rv']['k'] == 'binop':
+                        dv = df['rv']['a']
+            root = prog.root_fn(fn).short
+            key = chk.key(RI, root, t.get('oty', '?'), '#%d' % ndiv)
+            if dv is None:
+                chk.fail(RI, key, 'cannot identify the divisor of this %s check' % t['ak'], fn.loc(bb))
+                continue
+            dprov = {a for a in tr.prov(fn, dv) if not a.startswith(('cast:', 'const:'))}
+            guarded = None
+            for b in gq.dominators().get(bb, ()):
+                tt = fn.blocks[b]['term']
+                if not tt or tt['k'] != 'switch':
+                    continue
+                cnd = resolve_cond(prog, fn, tt['d'], tr)
+                if cnd is None:
+                    continue
+                zero_edges = None
+                if cnd.desc[0] == 'cmp' and isinstance(cnd.desc[3], int):
+                    gprov = {a for a in cnd.desc[2] if not a.startswith(('cast:', 'const:'))}
+                    if not gprov or not (gprov <= dprov or dprov <= gprov):
+                        continue
+                    op_, k_ = cnd.desc[1], cnd.desc[3]
+                    rel = op_[1:] if op_.startswith('r') else op_
+                    a_, b_ = (k_, 0) if op_.startswith('r') else (0, k_)
+                    truth0 = {'Eq': a_ == b_, 'Ne': a_ != b_, 'Lt': a_ < b_, 'Le': a_ <= b_, 'Gt': a_ > b_, 'Ge': a_ >= b_}[rel]
+                    if not cnd.positive:
+                        truth0 = not truth0
+                    zero_edges = [tb for v, tb in tt['ts'] if cnd.truth_of_value(v) == truth0]
+                    if len(tt['ts']) == 1 and cnd.truth_of_value(1 - tt['ts'][0][0]) == truth0:
+                        zero_edges.append(tt['else'])
+                elif cnd.desc[0] == 'call' and cnd.desc[1].rsplit('::', 1)[-1] == 'is_empty' \
+                        and any(a.rsplit('::', 1)[-1] == 'len' for a in dprov):
+                    groots = {a for a in cnd.desc[2] if a.startswith(('arg:', 'field:'))}
+                    droots = {a for a in tr.prov(fn, dv) if a.startswith(('arg:', 'field:'))}
+                    zero_edges = [tb for v, tb in tt['ts'] if cnd.truth_of_value(v)]
+                    if len(tt['ts']) == 1 and cnd.truth_of_value(1 - tt['ts'][0][0]):
+                        zero_edges.append(tt['else'])
+                    if not zero_edges:
+                        continue
+                if zero_edges is not None and bb not in gq.reachable(zero_edges, avoid=[b]):
+                    guarded = '%s at %s' % (cnd.desc[1] if cnd.desc[0] != 'cmp' else 'comparison with %s' % cnd.desc[3],
+                                            fn.loc(b))
+                    break
+            chk.decide(RI, key, guarded is not None, 'the divisor cannot be 0 here: ' + (guarded or ''),
+                       '%s divides (%s, %s) by a value that no dominating test keeps away from 0 (divisor provenance %s): '
+                       'a story that makes it 0 aborts the process instead of raising a story error'
+                       % (root, t['ak'], t.get('oty'), sorted(dprov)[:4]), fn.loc(bb))
+    chk.floor(RI, 'panicking zero checks of divisions in the runtime', ndiv, 2)
+
     # ---------------------------------------------------------------- H
     RH = 'C04.unresolved-divert-is-a-fault'
     chk.rule(RH, 'A divert whose target cannot be found is a story fault, not a jump somewhere near: (a) '
